@@ -173,6 +173,14 @@ theorem withdraw_ok_of_some {s s' : St} {who lp : Nat} (h : withdraw s who lp = 
   · rename_i hok; injection h with h; exact ⟨hok, h.symm⟩
   · cases h
 
+theorem withdraw_jb {s s' : St} {who lp : Nat} (h : withdraw s who lp = some s') : s'.jb = s.jb := by
+  have e := (withdraw_ok_of_some h).2
+  subst e
+  unfold withdrawRes
+  generalize shareOf s lp = sh
+  cases s
+  rfl
+
 /-- the payout of a withdrawal is at most pro rata: `out · supply ≤ backing · lp` -/
 theorem shareOf_le (s : St) (lp : Nat) (hS : s.sup ≠ 0) : shareOf s lp * s.sup ≤ backing s * lp :=
   withdraw_out_le _ _ _ (by omega)
@@ -314,13 +322,14 @@ structure CbRel (s s' : St) : Prop where
   kind : s'.kind = s.kind
   lpVault : s'.lpVault = s.lpVault
   ledgerSum : s'.pend + s'.sent = s.pend + s.sent
+  jb : s'.jb = s.jb
 
-theorem CbRel.refl (s : St) : CbRel s s := ⟨le_refl _, le_refl _, rfl, rfl, rfl, rfl, rfl, rfl, rfl, rfl⟩
+theorem CbRel.refl (s : St) : CbRel s s := ⟨le_refl _, le_refl _, rfl, rfl, rfl, rfl, rfl, rfl, rfl, rfl, rfl⟩
 
 theorem CbRel.trans {a b c : St} (h1 : CbRel a b) (h2 : CbRel b c) : CbRel a c :=
   ⟨le_trans h2.sup h1.sup, le_trans h2.pend h1.pend, h2.ctr.trans h1.ctr, h2.allTime.trans h1.allTime,
    h2.burned.trans h1.burned, h2.assetSupply.trans h1.assetSupply, h2.fees.trans h1.fees,
-   h2.kind.trans h1.kind, h2.lpVault.trans h1.lpVault, h2.ledgerSum.trans h1.ledgerSum⟩
+   h2.kind.trans h1.kind, h2.lpVault.trans h1.lpVault, h2.ledgerSum.trans h1.ledgerSum, h2.jb.trans h1.jb⟩
 
 theorem transferOut_spec {s s' : St} {dst n : Nat} (hab : s.ab.length = 6)
     (h : transferOut s dst n = some s') :
@@ -346,7 +355,7 @@ theorem run_cb {s s' : St} {a : Act} (hI : CbInv s) (h : run s a = some s') : Cb
     rw [run_pay] at h
     obtain ⟨rfl, _, hsum, hlen⟩ := payIn_spec hI.abLen (by omega) h
     exact ⟨⟨hlen, hI.lbLen, by rw [hsum]; exact hI.assetSum, hI.lpSum, hI.ctrPos⟩,
-      ⟨le_refl _, le_refl _, rfl, rfl, rfl, rfl, rfl, rfl, rfl, rfl⟩⟩
+      ⟨le_refl _, le_refl _, rfl, rfl, rfl, rfl, rfl, rfl, rfl, rfl, rfl⟩⟩
   | deposit n => rw [run_deposit, deposit_ctr _ _ _ _ hI.ctrPos] at h; cases h
   | withdraw lp =>
     rw [run_withdraw] at h
@@ -355,7 +364,8 @@ theorem run_cb {s s' : St} {a : Act} (hI : CbInv s) (h : run s a = some s') : Cb
     have h3 := getN_le_sum s.lb 3
     have hl := hI.lpSum
     refine ⟨⟨a1, a2, ?_, ?_, by rw [a9]; exact hI.ctrPos⟩,
-      ⟨by omega, by omega, a9, a10, a11, a12, a13, a14, a8, by rw [a7, hsent]⟩⟩
+      ⟨by omega, by omega, a9, a10, a11, a12, a13, a14, a8, by rw [a7, hsent],
+        withdraw_jb h⟩⟩
     · rw [a3, a12]; exact hI.assetSum
     · omega
   | collect =>
@@ -370,14 +380,14 @@ theorem run_cb {s s' : St} {a : Act} (hI : CbInv s) (h : run s a = some s') : Cb
         have hs := setN_sum s.ab 4 (getN s.ab 4 + s.pend) h4
         have := hI.assetSum
         refine ⟨⟨by simp [collectRes, setN_length, hI.abLen], hI.lbLen, ?_, hI.lpSum, hI.ctrPos⟩,
-          ⟨le_refl _, Nat.zero_le _, rfl, rfl, rfl, rfl, rfl, rfl, rfl, by simp only [collectRes]; omega⟩⟩
+          ⟨le_refl _, Nat.zero_le _, rfl, rfl, rfl, rfl, rfl, rfl, rfl, by simp only [collectRes]; omega, rfl⟩⟩
         simp only [collectRes]; omega
   | transferOut dst n =>
     rw [run_transferOut] at h
     obtain ⟨hlen, hsum, heq⟩ := transferOut_spec hI.abLen h
     rw [heq]
     exact ⟨⟨hlen, hI.lbLen, by simp only; rw [hsum]; exact hI.assetSum, hI.lpSum, hI.ctrPos⟩,
-      ⟨le_refl _, le_refl _, rfl, rfl, rfl, rfl, rfl, rfl, rfl, rfl⟩⟩
+      ⟨le_refl _, le_refl _, rfl, rfl, rfl, rfl, rfl, rfl, rfl, rfl, rfl⟩⟩
   | fail => rw [run_fail] at h; cases h
   | loan n cb => rw [run_loan, loanFrom_ctr _ _ _ hI.ctrPos] at h; cases h
 
@@ -442,6 +452,7 @@ structure LoanSpec (s s' : St) (amount : Nat) : Prop where
   fees : s'.fees = s.fees
   lpVault : s'.lpVault = s.lpVault
   ledger : s'.pend + s'.sent = s.pend + s.sent + fee s.fees.prot amount
+  jb : s'.jb = s.jb
 
 /-- the state in which a borrower's callback starts (loan paid out to account `a`, counter raised)
     satisfies the callback invariant -/
@@ -473,6 +484,7 @@ theorem loan_tail {s s1 s2 s' : St} {amount a : Nat} (hI : Inv s) (ha : a < 6)
   have e_fees : s1.fees = s.fees := by rw [hs1]
   have e_lpv : s1.lpVault = s.lpVault := by rw [hs1]
   have e_sent : s1.sent = s.sent := by rw [hs1]
+  have e_jb : s1.jb = s.jb := by rw [hs1]
   -- after_trade
   obtain ⟨hok, rfl⟩ := afterTrade_ok_of_some h
   simp only [afterTradeOk, Bool.and_eq_true, decide_eq_true_eq] at hok
@@ -486,7 +498,7 @@ theorem loan_tail {s s1 s2 s' : St} {amount a : Nat} (hI : Inv s) (ha : a < 6)
   have hsup2 : s2.sup ≤ s.sup := by have := r.sup; omega
   have hbf : fee s.fees.burn amount ≤ s2.bal := by omega
   have hlv : s2.lpVault = s.lpVault := r.lpVault.trans e_lpv
-  refine ⟨⟨?_, ?_, ?_, ?_, ?_, ?_, ?_⟩, ?_, ?_, ?_, ?_, ?_, ?_, ?_, ?_, ?_, ?_⟩
+  refine ⟨⟨?_, ?_, ?_, ?_, ?_, ?_, ?_⟩, ?_, ?_, ?_, ?_, ?_, ?_, ?_, ?_, ?_, ?_, ?_⟩
   all_goals simp only [afterTradeRes, hf]
   · exact hI2.abLen
   · exact hI2.lbLen
@@ -508,6 +520,7 @@ theorem loan_tail {s s1 s2 s' : St} {amount a : Nat} (hI : Inv s) (ha : a < 6)
   · have := r.ctr; omega
   · exact hlv
   · have := r.ledgerSum; omega
+  · exact r.jb.trans e_jb
 
 theorem loan_spec {s s' : St} {amount : Nat} {cb : List Act} (hI : Inv s)
     (h : loanFrom s amount cb = some s') : LoanSpec s s' amount := by
@@ -554,13 +567,13 @@ theorem move_cb {s s' : St} {src dst n : Nat} (hI : CbInv s) (hs : src < 6) (hd 
   obtain ⟨hlen, hsum, heq, _, _⟩ := move_spec hI.abLen hs hd h
   rw [heq]
   exact ⟨⟨hlen, hI.lbLen, by simp only; rw [hsum]; exact hI.assetSum, hI.lpSum, hI.ctrPos⟩,
-    ⟨le_refl _, le_refl _, rfl, rfl, rfl, rfl, rfl, rfl, rfl, rfl⟩⟩
+    ⟨le_refl _, le_refl _, rfl, rfl, rfl, rfl, rfl, rfl, rfl, rfl, rfl⟩⟩
 
 theorem payIn_cb {s s' : St} {a n : Nat} (hI : CbInv s) (ha : a < 6) (h : payIn s a n = some s') :
     CbInv s' ∧ CbRel s s' := by
   obtain ⟨rfl, _, hsum, hlen⟩ := payIn_spec hI.abLen ha h
   exact ⟨⟨hlen, hI.lbLen, by rw [hsum]; exact hI.assetSum, hI.lpSum, hI.ctrPos⟩,
-    ⟨le_refl _, le_refl _, rfl, rfl, rfl, rfl, rfl, rfl, rfl, rfl⟩⟩
+    ⟨le_refl _, le_refl _, rfl, rfl, rfl, rfl, rfl, rfl, rfl, rfl, rfl⟩⟩
 
 theorem collect_cb {s s' : St} (hI : CbInv s) (h : collect s = some s') : CbInv s' ∧ CbRel s s' := by
   have := run_cb (a := .collect) hI (by rw [run_collect]; exact h)
@@ -622,7 +635,7 @@ theorem completeLoan_cb {s s' : St} {i n : Nat} (hI : CbInv s) (hi : i < 5)
   obtain ⟨_, heq, hlen, hsum, _⟩ := completeLoan_spec hI.abLen hi h
   have hs := hI.assetSum
   have e_bal : s'.bal = s.bal + payback s n := by rw [heq]
-  refine ⟨⟨hlen, ?_, ?_, ?_, ?_⟩, ⟨?_, ?_, ?_, ?_, ?_, ?_, ?_, ?_, ?_, ?_⟩⟩
+  refine ⟨⟨hlen, ?_, ?_, ?_, ?_⟩, ⟨?_, ?_, ?_, ?_, ?_, ?_, ?_, ?_, ?_, ?_, ?_⟩⟩
   · rw [heq]; exact hI.lbLen
   · have e : s'.assetSupply = s.assetSupply := by rw [heq]
     rw [e, e_bal]; omega
@@ -798,5 +811,283 @@ theorem router_loan_spec {s s' : St} {i amount : Nat} {payload : List RAct} (hI 
   obtain ⟨hI2, r2⟩ := rruns_cb (cb_start hI (by omega) hp) hr
   obtain ⟨hI3, r3⟩ := completeLoan_cb hI2 hi hcl
   exact loan_tail hI (by omega) hp hI3 (r2.trans r3) hat
+
+
+/-! ### stray coins attached to a message (`Op.attach`) -/
+
+theorem lmove_length (l : List Nat) (src dst n : Nat) : (lmove l src dst n).length = l.length := by
+  unfold lmove; rw [setN_length, setN_length]
+
+theorem lmove_sum (l : List Nat) (src dst n : Nat) (hs : src < l.length) (hd : dst < l.length)
+    (hn : n ≤ getN l src) : (lmove l src dst n).sum = l.sum := by
+  unfold lmove
+  have s1 := setN_sum l src (getN l src - n) hs
+  have s2 := setN_sum (setN l src (getN l src - n)) dst
+    (getN (setN l src (getN l src - n)) dst + n) (by rw [setN_length]; exact hd)
+  omega
+
+theorem lmove_dst (l : List Nat) (src dst n : Nat) (hd : dst < l.length) (hne : src ≠ dst) :
+    getN (lmove l src dst n) dst = getN l dst + n := by
+  unfold lmove
+  rw [getN_setN_same _ _ _ (by rw [setN_length]; exact hd), getN_setN_ne _ _ _ _ hne]
+
+theorem lmove_src (l : List Nat) (src dst n : Nat) (hs : src < l.length) (hne : src ≠ dst) :
+    getN (lmove l src dst n) src = getN l src - n := by
+  unfold lmove
+  rw [getN_setN_ne _ _ _ _ (by omega), getN_setN_same _ _ _ hs]
+
+theorem lmove_other (l : List Nat) (src dst n j : Nat) (h1 : j ≠ src) (h2 : j ≠ dst) :
+    getN (lmove l src dst n) j = getN l j := by
+  unfold lmove
+  rw [getN_setN_ne _ _ _ _ (by omega), getN_setN_ne _ _ _ _ (by omega)]
+
+theorem step_attach (s : St) (who sel n : Nat) (op : Op) :
+    step s (.attach who sel n op) =
+      match op.recv with
+      | none => none
+      | some dst =>
+        if sel = 0 ∧ op.isDeposit = true then none else
+        match arrive s who sel n dst with
+        | none => none
+        | some s1 => step s1 op := by
+  rw [step]
+  rfl
+
+/-- a successful message with coins attached, taken apart: the coins arrived at the receiving
+    contract (`s1`), then the message itself ran from `s1` -/
+theorem attach_parts {s s' : St} {who sel n : Nat} {op : Op}
+    (h : step s (.attach who sel n op) = some s') :
+    ∃ dst s1, op.recv = some dst ∧ ¬ (sel = 0 ∧ op.isDeposit = true) ∧
+      arrive s who sel n dst = some s1 ∧ step s1 op = some s' := by
+  rw [step_attach] at h
+  split at h
+  · cases h
+  · rename_i dst hr
+    split at h
+    · cases h
+    · rename_i hnd
+      split at h
+      · cases h
+      · rename_i s1 ha
+        exact ⟨dst, s1, hr, hnd, ha, h⟩
+
+/-- … and put together again -/
+theorem attach_of_parts {s s1 : St} {who sel n dst : Nat} {op : Op} (hr : op.recv = some dst)
+    (hnd : ¬ (sel = 0 ∧ op.isDeposit = true)) (ha : arrive s who sel n dst = some s1) :
+    step s (.attach who sel n op) = step s1 op := by
+  rw [step_attach, hr]
+  simp only
+  rw [if_neg hnd, ha]
+
+/-- coins of the vault asset's own denom attached to a vault message: a plain transfer to the vault
+    by one of the accounts 0..3 (native asset, non-empty coin) -/
+theorem arrive_own_vault {s s1 : St} {who n : Nat} (h : arrive s who 0 n 0 = some s1) :
+    payIn s who n = some s1 ∧ who < 4 ∧ s.kind = 0 ∧ n ≠ 0 := by
+  unfold arrive at h
+  split at h
+  · cases h
+  · rename_i hn
+    rw [if_pos rfl] at h
+    split at h
+    · cases h
+    · rename_i hk
+      rw [if_pos rfl] at h
+      exact ⟨h, by omega, by omega, hn⟩
+
+/-- … attached to a router message: a plain transfer to the router -/
+theorem arrive_own_router {s s1 : St} {who n : Nat} (h : arrive s who 0 n 1 = some s1) :
+    move s who 5 n = some s1 ∧ who < 4 ∧ s.kind = 0 ∧ n ≠ 0 := by
+  unfold arrive at h
+  split at h
+  · cases h
+  · rename_i hn
+    rw [if_pos rfl] at h
+    split at h
+    · cases h
+    · rename_i hk
+      rw [if_neg (by omega)] at h
+      exact ⟨h, by omega, by omega, hn⟩
+
+/-- coins of an unrelated denom: nothing but the junk balances changes -/
+theorem arrive_junk {s s1 : St} {who sel n dst : Nat} (hsel : sel ≠ 0)
+    (h : arrive s who sel n dst = some s1) :
+    s1 = { s with jb := lmove s.jb who (if dst = 0 then 7 else 5) n } ∧ n ≤ getN s.jb who ∧
+    (who < 4 ∨ who = 6) ∧ n ≠ 0 := by
+  unfold arrive at h
+  split at h
+  · cases h
+  · rename_i hn
+    split at h
+    · cases h
+    · rename_i hc
+      injection h with h
+      exact ⟨h.symm, by omega, by omega, hn⟩
+
+/-- what the arrival of stray coins does to the vault: at most a donation. The invariant holds, the
+    vault's balance does not fall, every ledger, the share supply and all share balances are untouched. -/
+structure ArriveSpec (s s1 : St) : Prop where
+  inv : Inv s1
+  balGe : s.bal ≤ s1.bal
+  pend : s1.pend = s.pend
+  sup : s1.sup = s.sup
+  lpVault : s1.lpVault = s.lpVault
+  lb : s1.lb = s.lb
+  sent : s1.sent = s.sent
+  allTime : s1.allTime = s.allTime
+  burned : s1.burned = s.burned
+  assetSupply : s1.assetSupply = s.assetSupply
+  fees : s1.fees = s.fees
+  kind : s1.kind = s.kind
+  toggles : s1.depOn = s.depOn ∧ s1.wdOn = s.wdOn ∧ s1.flOn = s.flOn
+
+theorem arrive_spec {s s1 : St} {who sel n dst : Nat} (hI : Inv s)
+    (h : arrive s who sel n dst = some s1) : ArriveSpec s s1 := by
+  by_cases hsel : sel = 0
+  · subst hsel
+    unfold arrive at h
+    split at h
+    · cases h
+    rw [if_pos rfl] at h
+    split at h
+    · cases h
+    rename_i hk
+    split at h
+    · obtain ⟨rfl, _, hsum, hlen⟩ := payIn_spec hI.abLen (by omega) h
+      refine ⟨⟨hlen, hI.lbLen, ?_, ?_, hI.lpSum, hI.locked, hI.ctr0⟩, ?_, rfl, rfl, rfl, rfl, rfl, rfl, rfl,
+        rfl, rfl, rfl, ⟨rfl, rfl, rfl⟩⟩
+      · have := hI.pendLe; simp only; omega
+      · rw [hsum]; exact hI.assetSum
+      · simp only; omega
+    · obtain ⟨hI', _, _, _, hb⟩ := move_inv hI (by omega) (by omega) h
+      obtain ⟨_, _, heq, _, _⟩ := move_spec hI.abLen (by omega) (by omega) h
+      refine ⟨hI', by omega, ?_, ?_, ?_, ?_, ?_, ?_, ?_, ?_, ?_, ?_, ⟨?_, ?_, ?_⟩⟩
+      all_goals rw [heq]
+  · obtain ⟨rfl, _⟩ := arrive_junk hsel h
+    exact ⟨⟨hI.abLen, hI.lbLen, hI.pendLe, hI.assetSum, hI.lpSum, hI.locked, hI.ctr0⟩, le_refl _, rfl, rfl,
+      rfl, rfl, rfl, rfl, rfl, rfl, rfl, rfl, ⟨rfl, rfl, rfl⟩⟩
+
+theorem ArriveSpec.backing_le {s s1 : St} (A : ArriveSpec s s1) : backing s ≤ backing s1 := by
+  have := A.balGe; have := A.pend
+  unfold backing; omega
+
+/-- the unrelated denom only ever moves from a sender to the vault (entry 7) or the router (entry 5):
+    no handler of either contract ever sends it anywhere -/
+structure JRel (s s' : St) : Prop where
+  len : s'.jb.length = s.jb.length
+  sum : s'.jb.sum = s.jb.sum
+  le : ∀ a, a ≠ 5 → a ≠ 7 → getN s'.jb a ≤ getN s.jb a
+  router : getN s.jb 5 ≤ getN s'.jb 5
+  vault : getN s.jb 7 ≤ getN s'.jb 7
+
+theorem JRel.of_eq {s s' : St} (h : s'.jb = s.jb) : JRel s s' :=
+  ⟨by rw [h], by rw [h], fun a _ _ => by rw [h], by rw [h], by rw [h]⟩
+
+theorem JRel.trans {a b c : St} (h1 : JRel a b) (h2 : JRel b c) : JRel a c :=
+  ⟨h2.len.trans h1.len, h2.sum.trans h1.sum, fun x h5 h7 => le_trans (h2.le x h5 h7) (h1.le x h5 h7),
+   le_trans h1.router h2.router, le_trans h1.vault h2.vault⟩
+
+theorem arrive_jrel {s s1 : St} {who sel n dst : Nat} (hI : Inv s) (hj : s.jb.length = 8)
+    (h : arrive s who sel n dst = some s1) : JRel s s1 := by
+  by_cases hsel : sel = 0
+  · subst hsel
+    apply JRel.of_eq
+    unfold arrive at h
+    split at h
+    · cases h
+    rw [if_pos rfl] at h
+    split at h
+    · cases h
+    rename_i hk
+    split at h
+    · obtain ⟨rfl, _⟩ := payIn_spec hI.abLen (by omega) h
+      rfl
+    · obtain ⟨_, _, heq, _, _⟩ := move_spec hI.abLen (by omega) (by omega) h
+      rw [heq]
+  · obtain ⟨rfl, hn, hw, _⟩ := arrive_junk hsel h
+    have hd : (if dst = 0 then 7 else 5) < s.jb.length := by rw [hj]; split <;> omega
+    have hne : who ≠ (if dst = 0 then 7 else 5) := by split <;> omega
+    have hd57 : (if dst = 0 then 7 else 5) = 7 ∨ (if dst = 0 then 7 else 5) = 5 := by split <;> omega
+    generalize (if dst = 0 then 7 else 5) = d at *
+    have hws : who < s.jb.length := by rw [hj]; omega
+    refine ⟨?_, ?_, ?_, ?_, ?_⟩
+    · simp only; exact lmove_length _ _ _ _
+    · simp only; exact lmove_sum _ _ _ _ hws hd hn
+    · intro a h5 h7
+      simp only
+      by_cases ha : a = who
+      · subst ha; rw [lmove_src _ _ _ _ hws hne]; omega
+      · rw [lmove_other _ _ _ _ _ ha (by omega)]
+    · simp only
+      by_cases h5 : d = 5
+      · subst h5; rw [lmove_dst _ _ _ _ hd hne]; omega
+      · rw [lmove_other _ _ _ _ _ (by omega) (by omega)]
+    · simp only
+      by_cases h7 : d = 7
+      · subst h7; rw [lmove_dst _ _ _ _ hd hne]; omega
+      · rw [lmove_other _ _ _ _ _ (by omega) (by omega)]
+
+/-- no operation of the vault or the router moves the unrelated denom, except that coins attached to
+    a message land on (and stay with) the contract that receives it -/
+theorem step_jrel {s s' : St} (op : Op) (hI : Inv s) (hj : s.jb.length = 8) (h : step s op = some s') :
+    JRel s s' := by
+  induction op generalizing s s' with
+  | deposit who amount sent =>
+    simp only [step] at h
+    split at h
+    · cases h
+    · obtain ⟨_, rfl⟩ := deposit_ok_of_some h
+      exact JRel.of_eq (by simp only [depositRes])
+  | withdraw who lp =>
+    simp only [step] at h
+    split at h
+    · cases h
+    · exact JRel.of_eq (withdraw_jb h)
+  | collect =>
+    simp only [step] at h
+    unfold collect at h
+    split at h
+    · injection h with h; subst h; exact JRel.of_eq rfl
+    · split at h
+      · cases h
+      · injection h with h; subst h; exact JRel.of_eq (by simp only [collectRes])
+  | setFees f =>
+    simp only [step] at h
+    split at h
+    · injection h with h; subst h; exact JRel.of_eq rfl
+    · cases h
+  | setToggles d w f =>
+    simp only [step] at h
+    injection h with h; subst h; exact JRel.of_eq rfl
+  | loan amount cb =>
+    simp only [step] at h
+    exact JRel.of_eq (loan_spec hI h).jb
+  | donate who n =>
+    simp only [step] at h
+    split at h
+    · cases h
+    · obtain ⟨rfl, _⟩ := payIn_spec hI.abLen (by omega) h
+      exact JRel.of_eq rfl
+  | routerLoan initiator amount payload =>
+    simp only [step] at h
+    split at h
+    · cases h
+    · exact JRel.of_eq (router_loan_spec hI (by omega) h).jb
+  | routerLoanNone who payload =>
+    simp only [step] at h
+    injection h with h; subst h; exact JRel.of_eq rfl
+  | routerLoanMulti who a1 a2 payload => exact absurd h (by simp [step])
+  | fundRouter who n =>
+    simp only [step] at h
+    split at h
+    · cases h
+    · obtain ⟨_, _, heq, _, _⟩ := move_spec hI.abLen (by omega) (by omega) h
+      exact JRel.of_eq (by rw [heq])
+  | nextLoanBy who amount payload => exact absurd h (by simp [step])
+  | completeLoanBy who initiator amount => exact absurd h (by simp [step])
+  | foreign k who a b => exact absurd h (by simp [step])
+  | attach who sel n op ih =>
+    obtain ⟨dst, s1, _, _, ha, hs⟩ := attach_parts h
+    have r1 := arrive_jrel hI hj ha
+    exact r1.trans (ih (arrive_spec hI ha).inv (by rw [r1.len]; exact hj) hs)
 
 end WW.Vault
